@@ -65,7 +65,10 @@ Tails == << [t |-> "clean"],
             [t |-> "pop",   k |-> 5,  g |-> "ones"],
             [t |-> "trunc", k |-> 70, g |-> "alt"],
             [t |-> "raw",   g |-> "ones"],
-            [t |-> "extra", k |-> 2,  g |-> "ones"] >>
+            [t |-> "extra", k |-> 2,  g |-> "ones"],
+            \* shrunk below its final length, then grown back (resize + set): the
+            \* backend holds stale ones where the final contents have zeros
+            [t |-> "regrow", k |-> 70, g |-> "ones", seed |-> 0] >>
 
 \* ----- the menu of stacks (mirrors lib/gen_ranksel.py / fam_ranksel.rs) ------
 ANB == [l |-> "anb", t |-> "anb"]
